@@ -1189,7 +1189,7 @@ fn ctl_grid(r: &mut Rng, tier: &str, want_nmi: bool, want_halt: Option<bool>) ->
                                 if (b as usize + rep) % 5 == 0 {
                                     s.sp = r.pick(&EDGE_ADDR);
                                 }
-                                if im == 2 && (b as usize + rep) % 3 == 0 {
+                                if im == 2 && (b as usize + rep) % 3 == (if want_nmi { 1 } else { 0 }) {
                                     // the stack runs into the mode-2 table entry being used
                                     let t = (s.regs[I] as u16) << 8 | b as u16;
                                     s.sp = t.wrapping_add(1 + ((b as u16 / 3) % 3));
@@ -2294,7 +2294,11 @@ pub fn sweeps_for(prop: &str, r: &mut Rng, tier: &str) -> Vec<Case> {
             for op in [0xF5u8, 0xF1, 0x08, 0xD9, 0xC5, 0xD5, 0xE5, 0xC1, 0xD1, 0xE1, 0xEB, 0xE3, 0xF9] {
                 rows9.push((Page::Base, op));
             }
-            for op in [0xE5u8, 0xE1, 0xE3, 0xF9] {
+            for op in [0xE5u8, 0xE1, 0xE3, 0xF9, 0x21, 0x22, 0x2A, 0x23, 0x2B, 0x09, 0x19, 0x29, 0x39,
+                       // the halves IXH/IXL/IYH/IYL as 8-bit registers
+                       0x24, 0x25, 0x26, 0x2C, 0x2D, 0x2E, 0x44, 0x45, 0x4C, 0x4D, 0x54, 0x55, 0x5C, 0x5D, 0x60, 0x61, 0x62, 0x63,
+                       0x64, 0x65, 0x67, 0x68, 0x69, 0x6A, 0x6B, 0x6C, 0x6D, 0x6F, 0x7C, 0x7D, 0x84, 0x85, 0x8C, 0x8D, 0x94, 0x95,
+                       0x9C, 0x9D, 0xA4, 0xA5, 0xAC, 0xAD, 0xB4, 0xB5, 0xBC, 0xBD] {
                 rows9.push((Page::DD, op));
                 rows9.push((Page::FD, op));
             }
@@ -2394,7 +2398,7 @@ pub fn api_history(r: &mut Rng, tag: &str, key: &str, s: St, ops: &[(&str, u32)]
                 let len = r.below(((t + 1 - org) as u64).min(48) + 1) as usize;
                 c.push(Cmd::LB(org as u16, Some(len), 0x200 + r.below(50) as u32), hp.v);
             }
-            "LBMISS" => { c.push(Cmd::LB((near(r, &st) as usize % (t + 1)) as u16, None, 0), hp.v); }
+            "LBMISS" => { c.push(Cmd::LB((near(r, &st) as usize % (t + 1)) as u16, None, r.below(2) as u32), hp.v); }
             "DA" => { c.push(Cmd::DA(near(r, &st)), hp.v); }
             "SF" => { c.push(Cmd::SF(r.pick(&[1u32, 2, 8, 16, 17, 28])), hp.v); }
             "SD" => { c.push(Cmd::SD(r.pick(&[1u32, 2, 4, 5, 8, 10, 20])), P_NONE); }
@@ -2663,6 +2667,7 @@ pub fn ctl_cases(r: &mut Rng, prop: &str, tier: &str) -> Vec<Case> {
         "C06" => (Proj { regs: true, sp: true, pc: true, ctl: true, ..NONE }, p_mem()),
         "C09" => (Proj { fmask: 0xFF, ..p_regs() }, p_mem()),
         "C15" => (Proj { pc: true, sp: true, ..NONE }, p_mem()),
+        "C11" | "C13" | "C14" => (Proj { fmask: 0x04, ..p_ctl() }, p_mem()),
         _ => return vec![],
     };
     let rows: Vec<(Page, u8)> = if prop == "C09" {
@@ -2751,6 +2756,27 @@ pub fn ctl_cases(r: &mut Rng, prop: &str, tier: &str) -> Vec<Case> {
 pub fn long_cases(r: &mut Rng, prop: &str, tier: &str) -> Vec<Case> {
     let mut cases = vec![];
     let reps = if quick(tier) { 1 } else { 4 };
+    if prop == "C06" || prop == "C18" {
+        for (k, sdur) in [0u32, 0, 1, 1, 2, 16].iter().enumerate() {
+            let mut s = rand_state(r);
+            s.seed = SEEDS[1 + k % 5];
+            s.halt = false; s.int = None; s.nmi = false;
+            s.sdur = *sdur;
+            s.smax = 20;
+            s.scur = 21;
+            let mut c = Case::new(format!("slice-end/d{}", sdur));
+            c.key = "slice-end".into();
+            c.push(Cmd::SN(Box::new(s)), P_NONE);
+            let pj = Proj { slice: true, ..NONE };
+            for j in 0..40 {
+                if k % 2 == 1 && j % 7 == 3 {
+                    c.push(Cmd::Nap(1), P_NONE);
+                }
+                c.push(Cmd::T, pj);
+            }
+            cases.push(c);
+        }
+    }
     for rep in 0..reps {
         match prop {
             // a CPU that stays halted for a long time: every step 4 T-states, nothing changes
@@ -2836,6 +2862,81 @@ pub fn long_cases(r: &mut Rng, prop: &str, tier: &str) -> Vec<Case> {
                     c.push(Cmd::D, p_mem());
                     cases.push(c);
                 }
+                // (c) the same mode-2 table entry used twice with the table word rewritten in between; the same for the
+                // bytes at 0x0038 / 0x0066 (whatever was fetched or looked up the first time must not be remembered)
+                for variant in 0..4 {
+                    let mut s = rand_state(r);
+                    s.seed = 0;
+                    s.halt = false; s.nmi = false; s.int = None;
+                    s.im = 2; s.iff1 = true; s.iff2 = true;
+                    s.regs[I] = 0x80;
+                    s.pc = 0x0100;
+                    s.sp = 0xF000;
+                    s.poke(0x0100, &[0x00, 0x18, 0xFD]);
+                    s.poke(0x8010, &[0x00, 0x20]);
+                    s.poke(0x2000, &[0xFB, 0xED, 0x4D]);
+                    s.poke(0x3000, &[0x3C, 0xFB, 0xED, 0x4D]);
+                    let mut c = Case::new(format!("long/im2-twice{}", variant));
+                    c.key = "long-im2".into();
+                    c.push(Cmd::SN(Box::new(s)), P_NONE);
+                    for round in 0..4 {
+                        c.push(Cmd::I(0x10), P_NONE);
+                        for _ in 0..(3 + variant) {
+                            c.push(Cmd::X, pj);
+                        }
+                        // re-point the vector (alternating), through a word store or two byte stores
+                        let target: u16 = if round % 2 == 0 { 0x3000 } else { 0x2000 };
+                        if variant % 2 == 0 {
+                            c.push(Cmd::WW(0x8010, target), P_NONE);
+                        } else {
+                            c.push(Cmd::WB(0x8010, target as u8), P_NONE);
+                            c.push(Cmd::WB(0x8011, (target >> 8) as u8), P_NONE);
+                        }
+                    }
+                    c.push(Cmd::D, p_mem());
+                    cases.push(c);
+                }
+            }
+            // the call that closes a slice on a fresh object (almost no host time has passed) and after a short stall, for very
+            // short slices, zero included: the requested sleep is computed without aborting and never exceeds the duration
+            "C06x" | "C18x" => {}
+            // two prefixed instructions in a row on one object: whatever the first leaves behind inside the library
+            // (a remembered prefix, an index selection) must not reach the second
+            "C10" => {
+                let firsts: [&[u8]; 10] = [&[0xFD, 0xCB, 0x01, 0x06], &[0xDD, 0xCB, 0x01, 0x06], &[0xFD, 0x23], &[0xDD, 0x23], &[0xFD, 0xCB, 0x02, 0x46],
+                                           &[0xED, 0x44], &[0xCB, 0x00], &[0xFD, 0x7E, 0x01], &[0xDD, 0x36, 0x01, 0x22], &[0x00]];
+                let pj = Proj { fmask: 0xFF, regs: true, sp: true, pc: true, cyc: true, ..NONE };
+                for (page, op) in all_rows() {
+                    if !matches!(page, Page::DD | Page::FD | Page::DDCB | Page::FDCB) {
+                        continue;
+                    }
+                    for (fi, f) in firsts.iter().enumerate() {
+                        if !quick(tier) || fi == 0 || fi == 1 || fi == 4 || (fi + op as usize + rep) % 5 == 0 {
+                            let mut s = rand_state(r);
+                            s.seed = SEEDS[1 + fi % 5];
+                            s.halt = false; s.int = None; s.nmi = false;
+                            s.pc = 0x0100 + (s.pc & 0x0FFF);
+                            s.sp = 0xF000;
+                            s.set_pair(IXH, 0x4000 + (r.u16() & 0x0FFF));
+                            s.set_pair(IYH, 0x6000 + (r.u16() & 0x0FFF));
+                            let code = encode(page, op, v8(r) & 0x7F, v8(r), v8(r));
+                            let pc = s.pc;
+                            s.poke(pc, f);
+                            // an unprefixed instruction in between half of the time
+                            let mid: &[u8] = if (fi + op as usize) % 2 == 0 { &[0x00] } else { &[] };
+                            s.poke(pc.wrapping_add(f.len() as u16), mid);
+                            s.poke(pc.wrapping_add((f.len() + mid.len()) as u16), &code);
+                            let mut c = Case::new(format!("{}/after{}", tagof(page, op), fi));
+                            c.key = tagof(page, op);
+                            c.push(Cmd::SN(Box::new(s)), P_NONE);
+                            for _ in 0..(2 + mid.len()) {
+                                c.push(Cmd::X, pj);
+                            }
+                            c.push(Cmd::D, p_mem());
+                            cases.push(c);
+                        }
+                    }
+                }
             }
             // exactly 256 and exactly 65,536 effective stores between two identical host calls
             "C20" | "C08" | "C07" => {
@@ -2876,6 +2977,85 @@ pub fn long_cases(r: &mut Rng, prop: &str, tier: &str) -> Vec<Case> {
                 }
             }
             _ => {}
+        }
+    }
+    cases
+}
+
+
+// ---------------------------------------------------------------------------------------------
+// every encoding with a ROM window (one byte, two bytes, reversed = empty, up to the end of the address space) or the
+// top of a small memory placed exactly at each address the instruction may touch
+// ---------------------------------------------------------------------------------------------
+pub fn rom_cases(r: &mut Rng, prop: &str, tier: &str) -> Vec<Case> {
+    let (px, pd): (Proj, Proj) = match prop {
+        "C01" => (p_regs(), p_mem()),
+        "C02" => (Proj { fmask: 0xD7, mode: Mode::Flags, ..NONE }, P_NONE),
+        "C03" => (Proj { pc: true, sp: true, ..NONE }, p_mem()),
+        "C07" => (P_NONE, p_mem()),
+        _ => return vec![],
+    };
+    let nrep = if quick(tier) { 1 } else { 4 };
+    let mut cases = vec![];
+    for (ri, (page, op)) in all_rows().into_iter().enumerate() {
+        for rep in 0..nrep {
+            let mut base = state_for0(r, page, op);
+            base.top = 0xFFFF;
+            base.rom = None;
+            base.halt = false;
+            base.int = None;
+            base.nmi = false;
+            base.seed = SEEDS[1 + (ri + rep) % 5];
+            base.pc = 0x0100 + (base.pc & 0x3FFF);
+            let code = encode(page, op, v8(r), v8(r), v8(r));
+            base.ovr.clear();
+            let pc = base.pc;
+            base.poke(pc, &code);
+            // pointers well inside the memory and away from the code
+            for hi in [B, D, H, IXH, IYH] {
+                let v = 0x5000 + (r.u16() & 0x3FFF);
+                base.set_pair(hi, v);
+            }
+            base.sp = 0x9000 + (r.u16() & 0x0FFE);
+            if is_block_repeat(page, op) {
+                base.set_pair(B, 1 + r.below(4) as u16);
+            }
+            let d_at = |k: u16| code[k as usize];
+            let sext = |b: u8| if b < 0x80 { b as u16 } else { 0xFF00 | b as u16 };
+            let nn1 = (d_at(2) as u16) << 8 | d_at(1) as u16;
+            let nn2 = (d_at(3) as u16) << 8 | d_at(2) as u16;
+            let cands: [u16; 9] = [
+                base.pair(H), base.pair(D), base.pair(B), base.sp.wrapping_sub(2), base.sp.wrapping_sub(1), base.sp,
+                base.pair(IXH).wrapping_add(sext(d_at(2))), base.pair(IYH).wrapping_add(sext(d_at(2))),
+                if page == Page::Base { nn1 } else { nn2 },
+            ];
+            for (ci, &c) in cands.iter().enumerate() {
+                let mut s = base.clone();
+                match (ci + ri + rep) % 6 {
+                    0 => s.rom = Some((c, c)),
+                    1 => s.rom = Some((c.wrapping_add(1), c.wrapping_sub(1))),
+                    2 => s.rom = Some((c.wrapping_sub(1), c)),
+                    3 => s.rom = Some((c, c.wrapping_add(1))),
+                    4 => s.rom = Some((c, 0xFFFF)),
+                    _ => {
+                        // the memory ends just below the address (reads there give 0, stores are dropped)
+                        if c > 0x4200 {
+                            s.top = c - 1;
+                            s.ovr.retain(|(a, _)| *a <= c - 1);
+                        } else {
+                            s.rom = Some((0, c));
+                        }
+                    }
+                }
+                let mut c2 = Case::new(format!("{}/rom{}", tagof(page, op), (ci + ri + rep) % 6));
+                c2.key = tagof(page, op);
+                c2.push(sbox(s), P_NONE);
+                c2.push(Cmd::X, px);
+                if pd != P_NONE {
+                    c2.push(Cmd::D, pd);
+                }
+                cases.push(c2);
+            }
         }
     }
     cases
